@@ -63,7 +63,7 @@ func runReqCase(t *testing.T, maxTTL int, timeout time.Duration, runs, e2es []ti
 			return &result.TracerouteRun{
 				Source:      result.TracerouteSource{IPAddress: net.IP{192, 0, 2, 1}, Port: 1000},
 				Destination: result.TracerouteDestination{IPAddress: net.IP{203, 0, 113, 9}, Port: uint16(port)},
-				Hops: []*result.TracerouteHop{{TTL: 1, IPAddress: net.IP{198, 51, 100, k}, RTT: 1}, {TTL: p.MaxTTL, IPAddress: net.IP{203, 0, 113, 9}, RTT: 2, IsDest: true}},
+				Hops:        []*result.TracerouteHop{{TTL: 1, IPAddress: net.IP{198, 51, 100, k}, RTT: 1}, {TTL: p.MaxTTL, IPAddress: net.IP{203, 0, 113, 9}, RTT: 2, IsDest: true}},
 			}, nil
 		})
 		defer restore()
